@@ -35,7 +35,7 @@ def _selected(env, cfg, prog):
     r = env.runner(cfg)
     d = _CACHE.setdefault(("sel", cfg), {"cur": None})
     alive = r.proc is not None and r.proc.poll() is None
-    if alive and d["cur"] == (id(r), r.starts) and r.ncases + 1 < r.recycle:
+    if alive and d["cur"] == (r.uid, r.starts) and r.ncases + 1 < r.recycle:
         return 0
     if alive:
         r.close()                      # select in a fresh process only (see module docstring)
@@ -48,7 +48,7 @@ def _after_run(env, cfg):
     r = env.runner(cfg)
     d = _CACHE.setdefault(("sel", cfg), {"cur": None})
     if d.pop("pending", False):
-        d["cur"] = (id(r), r.starts)
+        d["cur"] = (r.uid, r.starts)
 
 
 def _invalidate(env, cfg):
